@@ -1,3 +1,4 @@
+import Martian.Props.C03.Wire
 import Martian.Props.C03.Facts
 import Martian.Lemmas.Proxy
 import Martian.Lemmas.ProxyTrace
